@@ -30,7 +30,7 @@ Init ==
   /\ l = 1 /\ sh = EmptyShared /\ ob = EmptyShared
   /\ sg = SeqGhostInit(EmptyMap)
   /\ ex = [sc |-> -1, run |-> -1]
-  /\ ob2 = EmptyShared /\ fk = [on |-> FALSE, sameOrder |-> TRUE, noStale |-> TRUE]
+  /\ ob2 = EmptyShared /\ fk = [on |-> FALSE, good |-> TRUE, sameOrder |-> TRUE, noStale |-> TRUE]
   /\ sum = [execs |-> 0, calls |-> 0, conform |-> 0, drifts |-> {}, fails |-> {}, kf |-> {}, matches |-> 0, trades |-> 0,
             restores |-> 0, lockstep |-> 0, lockdiff |-> 0]
 
@@ -42,7 +42,7 @@ DoReset ==
      /\ sh' = o /\ ob' = o
      /\ sg' = SeqGhostInit(o.qmap)
      /\ ex' = [sc |-> Line.sc, run |-> Line.run]
-     /\ ob2' = EmptyShared /\ fk' = [on |-> FALSE, sameOrder |-> TRUE, noStale |-> TRUE]
+     /\ ob2' = EmptyShared /\ fk' = [on |-> FALSE, good |-> TRUE, sameOrder |-> TRUE, noStale |-> TRUE]
      /\ sum' = AddFails([sum EXCEPT !.execs = @ + 1],
                         IF ApiOk(Line.st) THEN {} ELSE {[mon |-> "C01", line |-> l, sc |-> Line.sc, run |-> Line.run]})
 
@@ -97,7 +97,7 @@ DoRestore ==
      IN /\ sum' = AddFails([sum EXCEPT !.restores = @ + 1], IF good THEN {} ELSE {Fail("C10", l)})
         /\ IF Line.k = "fork" /\ Line.ok
            THEN LET o2 == ObsOf(Line.st2) IN
-                ob2' = o2 /\ fk' = [on |-> TRUE, sameOrder |-> ForkFlags(ob, o2).sameOrder, noStale |-> ForkFlags(ob, o2).noStale]
+                ob2' = o2 /\ fk' = [on |-> TRUE, good |-> good, sameOrder |-> ForkFlags(ob, o2).sameOrder, noStale |-> ForkFlags(ob, o2).noStale]
            ELSE UNCHANGED <<ob2, fk>>
   /\ UNCHANGED <<sh, ob, sg, ex>>
 
